@@ -771,10 +771,10 @@ class InliningContract(Contract):
     their contracts: a callee that starts reporting failure by a return value is then seen by a caller that ignores it.
     (The callees keep their own contracts, verified separately and used at every other call site.)"""
 
-    def verify(self, reg, mutate_goal=None):
+    def verify(self, reg, *a, **kw):
         for q in self.inline:
             reg.contracts.pop(q, None)
-        return super().verify(reg, mutate_goal)
+        return super().verify(reg, *a, **kw)
 
 
 def pick_case(ctx, names, what):
